@@ -7,7 +7,7 @@ import (
 )
 
 var profSchedPre = &Profile{
-	Name: "C05-sched", MinOps: 0, MaxOps: 14, NColls: 2, EndOnly: 100,
+	Name: "C05-sched", MinOps: 0, MaxOps: 14, NColls: 2, EndOnly: 100, PlainNames: true,
 	Kinds: []wk{{OpSet, 60}, {OpDel, 8}, {OpFlush, 14}, {OpEvict, 8}, {OpReopen, 8}, {OpSet, 2}},
 }
 
